@@ -253,7 +253,7 @@ std::vector<DevEv> extract(const RunData& rd, hz::RunResult* res) {
         else {
           // a failed read is retried by the device layer until its deadline; when the deadline has passed meanwhile, ebusd
           // sees a timeout although the poll before reported data: accepted when ebusd itself reports the timeout next
-          if (e.s == "readerr" || e.s == "readeintr" || e.s == "readzero") readErrPending = true;
+          if (e.s == "readerr" || e.s == "readeintr" || e.s == "readzero" || e.s == "readagain") readErrPending = true;
           d.type = DevEv::OTHER; out.push_back(d);
         }
         break;
@@ -770,6 +770,11 @@ void Monitor::onOther(const DevEv& d) {
         if (e.s.find("final") != std::string::npos) s.finalNotified = true;
         s.lastResult = static_cast<int>(e.b);
         s.lastSlave = e.bytes;
+        if (e.b > 0) {
+          // RESULT_CONTINUE / RESULT_EMPTY are intermediate codes of the receive path, not a definite result of a request
+          snprintf(buf, sizeof(buf), "request %llu (%s) notified with the intermediate code %lld instead of a definite result", static_cast<unsigned long long>(e.id), info.kind.c_str(), static_cast<long long>(e.b));
+          violate("C04", "indefinite-result", info.kind, d, buf);
+        }
         auto& q = validAwaitingNotify[key];
         if (e.b == 0) {
           if (q.empty()) {
